@@ -140,6 +140,15 @@ def cipherOf (c : Conn) (sub : Nat) : Cipher :=
   { enc := fun pos d => if c.cipherOn then rc4At key pos d else d,
     dec := fun pos d => if c.cipherOn then rc4At key pos d else d }
 
+/-- the L2 cipher with the connection's compression around it: encode = cipher after `compress`, decode = `decompress` after
+    cipher (a failing `decompress` raises in the code; in the channel it yields the empty string — the refinement theorems are
+    stated for runs in which `process_reliable` raises nothing) -/
+def wrap (env : Env) (ci : Cipher) : Cipher :=
+  { enc := fun pos d => ci.enc pos (env.compress d),
+    dec := fun pos y => match env.decompress (ci.dec pos y) with
+      | .ok d => d
+      | .error _ => [] }
+
 def SubWF (c : Conn) (sub : Nat) : Prop :=
   sub < c.relCiphers.length ∧ sub < c.fragBufs.length ∧ sub < c.queues.length
 
@@ -283,12 +292,39 @@ theorem consume_closed (env : Env) (sub : Nat) : ∀ (rel : List Packet) (c : Co
         exact ⟨this.1, this.2.1, this.2.2.1, this.2.2.2⟩
       · exact ih c h hw
 
+/-- the exceptions `PayloadEncoder.decode` can raise: an IndexError (no cipher for the substream) or whatever `decompress` raised -/
+theorem decodePayload_err_kind (env : Env) (c : Conn) (p : Packet) (e : Err) (h : c.decodePayload env p = .error e) :
+    e = .index ∨ ∃ b, env.decompress b = .error e := by
+  by_cases h1 : p.type = TYPE_DATA ∧ (!p.payload.isEmpty) = true
+  · by_cases h2 : hasReliable p.flags = true
+    · cases h3 : c.relCiphers[p.substreamId]? with
+      | none => rw [decodePayload_rel_none env c p h1 h2 h3] at h; cases h; exact Or.inl rfl
+      | some sc =>
+        cases h4 : c.cipherOn with
+        | true =>
+          rw [decodePayload_rel_on env c p sc h1 h2 h3 h4] at h
+          cases hd : env.decompress (rc4At sc.key sc.decPos p.payload) with
+          | error e' => rw [hd] at h; cases h; exact Or.inr ⟨_, hd⟩
+          | ok x => rw [hd] at h; cases h
+        | false =>
+          rw [decodePayload_rel_off env c p sc h1 h2 h3 h4] at h
+          cases hd : env.decompress p.payload with
+          | error e' => rw [hd] at h; cases h; exact Or.inr ⟨_, hd⟩
+          | ok x => rw [hd] at h; cases h
+    · rw [decodePayload_unrel env c p h1 h2] at h
+      generalize hg : env.decompress _ = r at h
+      cases r with
+      | error e' => cases h; exact Or.inr ⟨_, hg⟩
+      | ok x => cases h
+  · rw [decodePayload_plain env c p h1] at h; cases h
+
 /-- one DATA packet through `PayloadEncoder.decode` = one application of the L2 cipher at the tracked position -/
-theorem decode_step (env : Env) (hdec : ∀ b, env.decompress b = .ok b) (sub : Nat) (c : Conn) (core : Core) (p : Packet)
+theorem decode_step (env : Env) (sub : Nat) (c : Conn) (core : Core) (p : Packet)
     (hw : SubWF c sub) (hsub : p.substreamId = sub) (hrel : hasReliable p.flags = true) (ht : p.type = TYPE_DATA)
-    (hpos : c.cipherOn = true → ∃ sc, c.relCiphers[sub]? = some sc ∧ core.decPos = sc.decPos) :
+    (hpos : c.cipherOn = true → ∃ sc, c.relCiphers[sub]? = some sc ∧ core.decPos = sc.decPos)
+    (hok : ∃ v, c.decodePayload env p = .ok v) :
     ∃ data c1, c.decodePayload env p = .ok (data, c1) ∧
-      data = (if p.payload.isEmpty then p.payload else (cipherOf c sub).dec core.decPos p.payload) ∧
+      data = (if p.payload.isEmpty then p.payload else (wrap env (cipherOf c sub)).dec core.decPos p.payload) ∧
       c1.eof = c.eof ∧ c1.queues = c.queues ∧ c1.fragBufs = c.fragBufs ∧ SubWF c1 sub ∧ cipherOf c1 sub = cipherOf c sub ∧
       (c1.cipherOn = true → ∃ sc', c1.relCiphers[sub]? = some sc' ∧ core.decPos + p.payload.length = sc'.decPos) := by
   have hsc : ∃ sc, c.relCiphers[sub]? = some sc := ⟨c.relCiphers[sub]'hw.1, List.getElem?_eq_getElem hw.1⟩
@@ -307,9 +343,14 @@ theorem decode_step (env : Env) (hdec : ∀ b, env.decompress b = .ok b) (sub : 
       obtain ⟨sc0, h0, hp0⟩ := hpos h4
       have : sc0 = sc := by rw [hsc] at h0; cases h0; rfl
       subst this
-      refine ⟨rc4At sc0.key sc0.decPos p.payload, { c with relCiphers := setAt c.relCiphers p.substreamId { sc0 with decPos := sc0.decPos + p.payload.length } }, ?_, ?_, rfl, rfl, rfl, ?_, ?_, ?_⟩
-      · rw [decodePayload_rel_on env c p sc0 hy hrel hsc' h4, hdec]
-      · rw [if_neg h1]; simp only [cipherOf, hsc, h4, if_true, Option.map, Option.getD]; rw [hp0]
+      obtain ⟨v, hv⟩ := hok
+      rw [decodePayload_rel_on env c p sc0 hy hrel hsc' h4] at hv
+      cases hdd : env.decompress (rc4At sc0.key sc0.decPos p.payload) with
+      | error e => rw [hdd] at hv; cases hv
+      | ok x =>
+      refine ⟨x, { c with relCiphers := setAt c.relCiphers p.substreamId { sc0 with decPos := sc0.decPos + p.payload.length } }, ?_, ?_, rfl, rfl, rfl, ?_, ?_, ?_⟩
+      · rw [decodePayload_rel_on env c p sc0 hy hrel hsc' h4, hdd]
+      · rw [if_neg h1]; simp only [wrap, cipherOf, hsc, h4, if_true, Option.map, Option.getD]; rw [hp0, hdd]
       · exact ⟨by show sub < (setAt c.relCiphers _ _).length; simp only [setAt, List.length_set]; exact hw.1, hw.2.1, hw.2.2⟩
       · simp only [cipherOf]; rw [set_key_same _ _ _ _ _ hsc']
       · intro _
@@ -317,32 +358,38 @@ theorem decode_step (env : Env) (hdec : ∀ b, env.decompress b = .ok b) (sub : 
         show (setAt c.relCiphers p.substreamId _)[sub]? = _
         rw [hsub]; exact get_set_self _ _ _ hw.1
     | false =>
-      refine ⟨p.payload, c, ?_, ?_, rfl, rfl, rfl, hw, rfl, ?_⟩
-      · rw [decodePayload_rel_off env c p sc hy hrel hsc' h4, hdec]
-      · rw [if_neg h1]; simp [cipherOf, h4]
+      obtain ⟨v, hv⟩ := hok
+      rw [decodePayload_rel_off env c p sc hy hrel hsc' h4] at hv
+      cases hdd : env.decompress p.payload with
+      | error e => rw [hdd] at hv; cases hv
+      | ok x =>
+      refine ⟨x, c, ?_, ?_, rfl, rfl, rfl, hw, rfl, ?_⟩
+      · rw [decodePayload_rel_off env c p sc hy hrel hsc' h4, hdd]
+      · rw [if_neg h1]; simp [wrap, cipherOf, h4, hdd]
       · intro hon; rw [h4] at hon; cases hon
 
 theorem getD_getElem? {α : Type} (l : List α) (i : Nat) (d : α) : (l[i]?).getD d = l.getD i d := by
   simp [List.getD]
 
 /-- **the release loop of `process_reliable` is `Core.consume`** on the projected packets -/
-theorem consume_refines (env : Env) (hdec : ∀ b, env.decompress b = .ok b) (sub : Nat) (ci : Cipher) :
+theorem consume_refines (env : Env) (hnc : ∀ b, env.decompress b ≠ .error .closed) (sub : Nat) (ci : Cipher) :
     ∀ (rel : List Packet) (c : Conn) (core : Core), SubWF c sub → cipherOf c sub = ci →
-      (∀ q ∈ rel, q.substreamId = sub ∧ hasReliable q.flags = true) → RRel c sub core →
-      RRel (Conn.consume env sub rel c).c sub (core.consume ci (rel.map wireOf)) ∧
+      (∀ q ∈ rel, q.substreamId = sub ∧ hasReliable q.flags = true) →
+      (∀ e, (Conn.consume env sub rel c).err = some e → e = .closed) → RRel c sub core →
+      RRel (Conn.consume env sub rel c).c sub (core.consume (wrap env ci) (rel.map wireOf)) ∧
       SubWF (Conn.consume env sub rel c).c sub ∧ cipherOf (Conn.consume env sub rel c).c sub = ci := by
   intro rel
   induction rel with
-  | nil => intro c core hw hc _ hr; exact ⟨hr, hw, hc⟩
+  | nil => intro c core hw hc _ _ hr; exact ⟨hr, hw, hc⟩
   | cons p ps ih =>
-    intro c core hw hc hgood hr
+    intro c core hw hc hgood herr hr
     have hp := hgood p (List.mem_cons_self)
     have hps : ∀ q ∈ ps, q.substreamId = sub ∧ hasReliable q.flags = true := fun q hq => hgood q (List.mem_cons_of_mem _ hq)
     cases he : c.eof with
     | true =>
       -- closed on both sides: nothing more is delivered
       have hcl : core.closed = true := by rw [hr.closed]; exact he
-      have h2 : core.consume ci ((p :: ps).map wireOf) = core := by simp [Core.consume, hcl]
+      have h2 : core.consume (wrap env ci) ((p :: ps).map wireOf) = core := by simp [Core.consume, hcl]
       have h1 := consume_closed env sub (p :: ps) c he hw
       rw [h2]
       refine ⟨⟨by rw [hcl, h1.1], ?_, fun hlive => by rw [h1.1] at hlive; cases hlive⟩, h1.2.2.1, by rw [h1.2.2.2]; exact hc⟩
@@ -351,28 +398,45 @@ theorem consume_refines (env : Env) (hdec : ∀ b, env.decompress b = .ok b) (su
       have hcl : core.closed = false := by rw [hr.closed]; exact he
       have hlive := hr.live he
       simp only [List.map_cons, Core.consume, hcl, Bool.false_eq_true, if_false, Conn.consume]
+      simp only [Conn.consume] at herr
       by_cases ht : p.type = TYPE_DATA
       · -- DATA
         have hk : (wireOf p).kind = .data p.fragmentId := by simp [wireOf, kindOf, ht]
         rw [hk, if_pos ht]
+        rw [if_pos ht] at herr
         simp only []
-        obtain ⟨data, c1, hdp, hdata, h_eof, h_q, h_fb, hw1, hc1, hpos1⟩ := decode_step env hdec sub c core p hw hp.1 hp.2 ht hlive.2
+        have hok : ∃ v, c.decodePayload env p = .ok v := by
+          cases hdd : c.decodePayload env p with
+          | error e =>
+            rw [hdd] at herr
+            have he := herr e rfl
+            subst he
+            rcases decodePayload_err_kind env c p _ hdd with h1 | ⟨b, hb⟩
+            · cases h1
+            · exact absurd hb (hnc b)
+          | ok v => exact ⟨v, rfl⟩
+        obtain ⟨data, c1, hdp, hdata, h_eof, h_q, h_fb, hw1, hc1, hpos1⟩ := decode_step env sub c core p hw hp.1 hp.2 ht hlive.2 hok
         rw [hdp]
+        rw [hdp] at herr
         simp only []
+        simp only [] at herr
         have hwire : (wireOf p).cipher = p.payload := rfl
         rw [hwire]
-        have hci : (cipherOf c sub).dec = ci.dec := by rw [hc]
-        have hpt : data = (if p.payload.isEmpty then p.payload else ci.dec core.decPos p.payload) := by rw [hdata, hci]
+        have hci : (wrap env (cipherOf c sub)).dec = (wrap env ci).dec := by rw [hc]
+        have hpt : data = (if p.payload.isEmpty then p.payload else (wrap env ci).dec core.decPos p.payload) := by rw [hdata, hci]
         have he1 : c1.eof = false := by rw [h_eof]; exact he
         by_cases hf : p.fragmentId = 0
         · rw [if_pos hf, if_neg (by rw [he1]; exact Bool.false_ne_true)]
+          rw [if_pos hf, if_neg (by rw [he1]; exact Bool.false_ne_true)] at herr
           simp only [R.bind, R.ok]
+          simp only [R.bind, R.ok] at herr
           apply ih
           · exact ⟨hw1.1, by show sub < (setAt c1.fragBufs sub _).length; simp only [setAt, List.length_set]; exact hw1.2.1,
                    by show sub < (setAt c1.queues sub _).length; simp only [setAt, List.length_set]; exact hw1.2.2⟩
           · show cipherOf { c1 with fragBufs := _, queues := _ } sub = ci
             rw [← hc, ← hc1]; rfl
           · exact hps
+          · exact herr
           · refine ⟨by show false = c1.eof; exact he1.symm, ?_, fun _ => ⟨?_, ?_⟩⟩
             · show (Reasm.absorb core.reasm p.fragmentId _).out = ((setAt c1.queues sub _)[sub]?).getD []
               rw [get_set_self _ _ _ hw1.2.2]
@@ -384,11 +448,13 @@ theorem consume_refines (env : Env) (hdec : ∀ b, env.decompress b = .ok b) (su
               simp [Reasm.absorb, hf]
             · exact hpos1
         · rw [if_neg hf]
+          rw [if_neg hf] at herr
           apply ih
           · exact ⟨hw1.1, by show sub < (setAt c1.fragBufs sub _).length; simp only [setAt, List.length_set]; exact hw1.2.1, hw1.2.2⟩
           · show cipherOf { c1 with fragBufs := _ } sub = ci
             rw [← hc, ← hc1]; rfl
           · exact hps
+          · exact herr
           · refine ⟨by show false = c1.eof; exact he1.symm, ?_, fun _ => ⟨?_, ?_⟩⟩
             · show (Reasm.absorb core.reasm p.fragmentId _).out = (c1.queues[sub]?).getD []
               simp only [Reasm.absorb, hf, if_false]
@@ -411,7 +477,8 @@ theorem consume_refines (env : Env) (hdec : ∀ b, env.decompress b = .ok b) (su
           rw [hr.out, h1.2.1]; rfl
         · have hk : (wireOf p).kind = .ping := by simp [wireOf, kindOf, ht, hd]
           rw [hk, if_neg hd]
-          exact ih c core hw hc hps hr
+          rw [if_neg ht, if_neg hd] at herr
+          exact ih c core hw hc hps herr hr
 
 theorem decodePayload_windows (env : Env) (c c1 : Conn) (p : Packet) (d : Bytes) (h : c.decodePayload env p = .ok (d, c1)) :
     c1.windows = c.windows := by
@@ -468,23 +535,27 @@ def GoodWin (sub : Nat) (w : Window Packet) : Prop := ∀ kq ∈ w.packets, kq.2
 
 /-- **`process_reliable` refines `Receiver.arrive`**: with the window projected by `wireOf` and the application side related by
     `RRel`, handing a reliable packet of substream `sub` to a live L1 connection is the L2 receiver step on the projected packet -/
-theorem processReliable_refines (env : Env) (hdec : ∀ b, env.decompress b = .ok b) (sub : Nat) (c : Conn) (w : Window Packet)
+theorem processReliable_refines (env : Env) (sub : Nat) (c : Conn) (w : Window Packet)
     (core : Core) (nrel : Nat) (p : Packet) (hw : SubWF c sub) (hwl : sub < c.windows.length) (hwin : c.windows[sub]? = some w)
-    (hgw : GoodWin sub w) (hp : p.substreamId = sub ∧ hasReliable p.flags = true) (hr : RRel c sub core) (hlive : c.eof = false) :
+    (hgw : GoodWin sub w) (hp : p.substreamId = sub ∧ hasReliable p.flags = true) (hr : RRel c sub core) (hlive : c.eof = false)
+    (hnc : ∀ b, env.decompress b ≠ .error .closed) (herr : ∀ e, (c.processReliable env p).err = some e → e = .closed) :
     ∃ w', (c.processReliable env p).c.windows[sub]? = some w' ∧ GoodWin sub w' ∧
-      Receiver.arrive (cipherOf c sub) ⟨w.map wireOf, nrel, core⟩ (wireOf p) =
-        ⟨w'.map wireOf, nrel + (w.update p.packetId p).2.length, (Receiver.arrive (cipherOf c sub) ⟨w.map wireOf, nrel, core⟩ (wireOf p)).core⟩ ∧
-      RRel (c.processReliable env p).c sub (Receiver.arrive (cipherOf c sub) ⟨w.map wireOf, nrel, core⟩ (wireOf p)).core ∧
+      Receiver.arrive (wrap env (cipherOf c sub)) ⟨w.map wireOf, nrel, core⟩ (wireOf p) =
+        ⟨w'.map wireOf, nrel + (w.update p.packetId p).2.length, (Receiver.arrive (wrap env (cipherOf c sub)) ⟨w.map wireOf, nrel, core⟩ (wireOf p)).core⟩ ∧
+      RRel (c.processReliable env p).c sub (Receiver.arrive (wrap env (cipherOf c sub)) ⟨w.map wireOf, nrel, core⟩ (wireOf p)).core ∧
       SubWF (c.processReliable env p).c sub ∧ cipherOf (c.processReliable env p).c sub = cipherOf c sub := by
   have hcl : core.closed = false := by rw [hr.closed]; exact hlive
-  unfold Conn.processReliable
+  unfold Conn.processReliable at herr ⊢
+  rw [hp.1, hwin] at herr
   rw [hp.1, hwin]
-  simp only []
+  simp only [] at herr ⊢
   have hum := update_map wireOf w p.packetId p
   have hid : (wireOf p).id = p.packetId := rfl
   generalize hu : w.update p.packetId p = u at hum
   obtain ⟨w', rel⟩ := u
   simp only [] at hum ⊢
+  have herr' : ∀ e, (Conn.consume env sub rel { c with windows := setAt c.windows sub w' }).err = some e → e = .closed := by
+    rw [hu] at herr; exact herr
   have hgood_rel : ∀ q ∈ rel, q.substreamId = sub ∧ hasReliable q.flags = true := by
     intro q hq
     have : q ∈ (w.update p.packetId p).2 := by rw [hu]; exact hq
@@ -497,15 +568,96 @@ theorem processReliable_refines (env : Env) (hdec : ∀ b, env.decompress b = .o
     cases update_packets_mem w _ _ _ this with
     | inl h => rw [h]; exact hp
     | inr h => exact hgw kq h
-  have h0 := consume_refines env hdec sub (cipherOf c sub) rel { c with windows := setAt c.windows sub w' } core
-    ⟨hw.1, hw.2.1, hw.2.2⟩ rfl hgood_rel ⟨hr.closed, hr.out, hr.live⟩
-  have harr : Receiver.arrive (cipherOf c sub) ⟨w.map wireOf, nrel, core⟩ (wireOf p) =
-      ⟨w'.map wireOf, nrel + rel.length, core.consume (cipherOf c sub) (rel.map wireOf)⟩ := by
+  have h0 := consume_refines env hnc sub (cipherOf c sub) rel { c with windows := setAt c.windows sub w' } core
+    ⟨hw.1, hw.2.1, hw.2.2⟩ rfl hgood_rel herr' ⟨hr.closed, hr.out, hr.live⟩
+  have harr : Receiver.arrive (wrap env (cipherOf c sub)) ⟨w.map wireOf, nrel, core⟩ (wireOf p) =
+      ⟨w'.map wireOf, nrel + rel.length, core.consume (wrap env (cipherOf c sub)) (rel.map wireOf)⟩ := by
     simp only [Receiver.arrive, hcl, Bool.false_eq_true, if_false, hid]
     rw [hum]; simp
   refine ⟨w', ?_, hgw', ?_, ?_, h0.2.1, h0.2.2⟩
   · rw [consume_windows]; exact get_set_self _ _ _ hwl
   · rw [harr]
   · rw [harr]; exact h0.1
+
+end Nx.L1
+
+namespace Nx.L1
+open Nx Nx.Prudp Nx.Chan Nx.Crypto
+
+/-- without compression (or whenever `decompress` cannot fail) decoding a reliable packet of a well-formed substream raises nothing -/
+theorem decodePayload_ok_of_id (env : Env) (hdec : ∀ b, ∃ x, env.decompress b = .ok x) (sub : Nat) (c : Conn) (p : Packet)
+    (hw : SubWF c sub) (hsub : p.substreamId = sub) (hrel : hasReliable p.flags = true) : ∃ v, c.decodePayload env p = .ok v := by
+  by_cases h1 : p.type = TYPE_DATA ∧ (!p.payload.isEmpty) = true
+  · cases h3 : c.relCiphers[p.substreamId]? with
+    | none =>
+      rw [hsub] at h3
+      have := List.getElem?_eq_none_iff.mp h3
+      exact absurd hw.1 (by omega)
+    | some sc =>
+      cases h4 : c.cipherOn with
+      | true =>
+        rw [decodePayload_rel_on env c p sc h1 hrel h3 h4]
+        obtain ⟨x, hx⟩ := hdec (rc4At sc.key sc.decPos p.payload)
+        rw [hx]; exact ⟨_, rfl⟩
+      | false =>
+        rw [decodePayload_rel_off env c p sc h1 hrel h3 h4]
+        obtain ⟨x, hx⟩ := hdec p.payload
+        rw [hx]; exact ⟨_, rfl⟩
+  · rw [decodePayload_plain env c p h1]; exact ⟨_, rfl⟩
+
+/-- … and then the only exception the release loop can raise is the closed-resource one (a completed message behind a released
+    DISCONNECT) -/
+theorem consume_closedOnly_of_id (env : Env) (hdec : ∀ b, ∃ x, env.decompress b = .ok x) (sub : Nat) :
+    ∀ (rel : List Packet) (c : Conn), SubWF c sub → (∀ q ∈ rel, q.substreamId = sub ∧ hasReliable q.flags = true) →
+      ∀ e, (Conn.consume env sub rel c).err = some e → e = .closed := by
+  intro rel
+  induction rel with
+  | nil => intro c _ _ e h; cases h
+  | cons p ps ih =>
+    intro c hw hgood e h
+    have hp := hgood p List.mem_cons_self
+    have hps : ∀ q ∈ ps, q.substreamId = sub ∧ hasReliable q.flags = true := fun q hq => hgood q (List.mem_cons_of_mem _ hq)
+    simp only [Conn.consume] at h
+    split at h
+    · obtain ⟨v, hv⟩ := decodePayload_ok_of_id env hdec sub c p hw hp.1 hp.2
+      obtain ⟨data, c1⟩ := v
+      have hs := decodePayload_frame env c c1 p data hv
+      rw [hv] at h
+      simp only [] at h
+      have hw1 : SubWF { c1 with fragBufs := setAt c1.fragBufs sub ((c1.fragBufs[sub]?.getD []) ++ data) } sub :=
+        ⟨by show sub < c1.relCiphers.length; rw [hs.2.2.2.1]; exact hw.1,
+         by show sub < (setAt c1.fragBufs sub _).length; simp only [setAt, List.length_set]; rw [hs.2.2.1]; exact hw.2.1,
+         by show sub < c1.queues.length; rw [hs.2.1]; exact hw.2.2⟩
+      split at h
+      · split at h
+        · cases h; rfl
+        · simp only [R.bind, R.ok] at h
+          refine ih _ ⟨?_, ?_, ?_⟩ hps e h
+          · show sub < c1.relCiphers.length; rw [hs.2.2.2.1]; exact hw.1
+          · show sub < (setAt c1.fragBufs sub _).length; simp only [setAt, List.length_set]; rw [hs.2.2.1]; exact hw.2.1
+          · show sub < (setAt c1.queues sub _).length; simp only [setAt, List.length_set]; rw [hs.2.1]; exact hw.2.2
+      · exact ih _ hw1 hps e h
+    · split at h
+      · simp only [R.bind, cleanup_no_error] at h
+        exact ih c.cleanup.c hw hps e h
+      · exact ih c hw hps e h
+
+theorem processReliable_closedOnly_of_id (env : Env) (hdec : ∀ b, ∃ x, env.decompress b = .ok x) (sub : Nat) (c : Conn)
+    (w : Window Packet) (p : Packet) (hw : SubWF c sub) (hwin : c.windows[sub]? = some w) (hgw : GoodWin sub w)
+    (hp : p.substreamId = sub ∧ hasReliable p.flags = true) :
+    ∀ e, (c.processReliable env p).err = some e → e = .closed := by
+  intro e h
+  unfold Conn.processReliable at h
+  rw [hp.1, hwin] at h
+  simp only [] at h
+  generalize hu : w.update p.packetId p = u at h
+  obtain ⟨w', rel⟩ := u
+  simp only [] at h
+  refine consume_closedOnly_of_id env hdec sub rel { c with windows := setAt c.windows sub w' } ⟨hw.1, hw.2.1, hw.2.2⟩ ?_ e h
+  intro q hq
+  have : q ∈ (w.update p.packetId p).2 := by rw [hu]; exact hq
+  cases update_mem w _ _ _ this with
+  | inl h => rw [h]; exact hp
+  | inr h => obtain ⟨k, hk⟩ := h; exact hgw (k, q) hk
 
 end Nx.L1
